@@ -16,10 +16,6 @@ Proof.
 Qed.
 
 (* class predicates used by the documented precedence *)
-Definition p_exact (k : str) (e : entry) : bool := is_exact e && str_eqb (join_host_port (e_host e) (e_port e)) k.
-Definition p_port (k : str) (e : entry) : bool := host_wild e && negb (port_wild e) && str_eqb (e_port e) k.
-Definition p_host (k : str) (e : entry) : bool := port_wild e && negb (host_wild e) && str_eqb (e_host e) k.
-Definition p_global (e : entry) : bool := host_wild e && port_wild e.
 
 (* the maps built so far answer exactly like a search through the entries read so far *)
 Definition agrees (m : matcher) (pre : list entry) : Prop :=
